@@ -185,6 +185,12 @@ func run(c Case) (pbt.Outcome, error) {
 	for _, p := range c.PreClosed {
 		if p >= 1 && p < len(scopes) {
 			_ = scopes[p].(interface{ Close() error }).Close()
+			// metrics asked for on the closed scope before it had its last report: whether their values
+			// are delivered is left open (C07), but they must not break the pass that finds them
+			scopes[p].Counter("oc").Inc(3)
+			scopes[p].Gauge("og").Update(1.5)
+			scopes[p].Histogram("oh", tally.ValueBuckets{1}).RecordValue(1)
+			scopes[p].Timer("ot").Record(time.Millisecond)
 		}
 	}
 	if c.Reacquire {
